@@ -61,6 +61,13 @@ class Instances(object):
         self.compilers = {}
         self.texts = {}
         self.written = {}
+        self.readers = {}
+        self.roots = []
+
+    def close(self):
+        for r in self.roots:
+            core.drop_root(r)
+        self.roots = []
 
     def parser(self, d):
         if d not in self.parsers:
@@ -155,8 +162,11 @@ def execute(inst, op, results):
         # which of several differently spelled candidate files a directory reader picks
         import os
         from pysmi.reader.localfile import FileReader
-        root = core.new_root('hread')
-        try:
+        key = json.dumps([sorted(op.get('omit', ())), sorted(op.get('ropts', {}).items())])
+        if key not in inst.readers:
+            # one reader object per (tree, options) for the life of this set of instances
+            root = core.new_root('hread')
+            inst.roots.append(root)
             with core.unhooked():
                 for rel, txt in sorted(READ_TREE.items()):
                     if rel in op.get('omit', ()):
@@ -166,15 +176,14 @@ def execute(inst, op, results):
                     with open(pth, 'w') as f:
                         f.write(txt)
                     os.utime(pth, (core.EPOCH0 - 500, core.EPOCH0 - 500))
-            try:
-                info, text = FileReader(root).setOptions(**op.get('ropts', {})).getData(op['name'])
-                return ['READ', info.file, info.name, sha(text)]
-            except error.PySmiError as e:
-                return exc_obs(e)[:2] + ['reader']
-            except Exception as e:  # noqa
-                return ['FOREIGN'] + exc_obs(e)[1:2]
-        finally:
-            core.drop_root(root)
+            inst.readers[key] = FileReader(root).setOptions(**op.get('ropts', {}))
+        try:
+            info, text = inst.readers[key].getData(op['name'])
+            return ['READ', info.file, info.name, sha(text)]
+        except error.PySmiError as e:
+            return exc_obs(e)[:2] + ['reader']
+        except Exception as e:  # noqa
+            return ['FOREIGN'] + exc_obs(e)[1:2]
     if kind == 'index':
         c, cg = inst.compiler('json')
         R = op.get('_results')
@@ -218,10 +227,12 @@ def run_history(hist):
             if len(long_results) > n0:
                 results_by_op[i] = long_results[-1]
             b = execute(fresh, eff, scratch) if hist.get('fresh', True) else a
+            fresh.close()
             da, db = sha(a), sha(b)
             recs.append({'long': da, 'fresh': db, 'same': da == db, 'obs': _brief(a), 'fresh_obs': _brief(b), 'kind': eff['op'],
                          'failed': isinstance(a, list) and a and a[0] in ('EXC', 'FOREIGN')})
             w.end_op()
+    long_lived.close()
     return recs
 
 
